@@ -1,4 +1,4 @@
-(* C13 -- address objects obey ordering, equality, hashing and arithmetic laws. Statements are about the Gallina terms regenerated from IPv4Obj / IPv6Obj (__lt__, __gt__, __eq__, __add__, __sub__, prefix-length setters, network_offset setter) in /repo on every run. lexlt is the lexicographic order on (network number, prefix length, host address). *)
+(* C13 -- address objects obey ordering, equality, hashing and arithmetic laws. Statements are about the Gallina terms regenerated from IPv4Obj / IPv6Obj (__lt__, __gt__, __eq__, __ne__, __add__, __sub__, prefix-length setters, network_offset setter) in /repo on every run. lexlt is the lexicographic order on (network number, prefix length, host address). *)
 From Coq Require Import ZArith. Require Import CCP.Lib.Res CCP.Model.IPRef CCP.gen.GenIP CCP.Proofs.C13Proofs. Open Scope Z_scope.
 
 Theorem C13_v4_lt_key :
@@ -40,6 +40,11 @@ Theorem C13_v4_eq_iff :
   forall a b, wf 32 a -> wf 32 b -> gen_v4_eq a b = Ok true <-> addr a = addr b /\ plen a = plen b.
 Proof. exact v4_eq_iff. Qed.
 Print Assumptions C13_v4_eq_iff.
+
+Theorem C13_v4_ne_is_not_eq :
+  forall a b, wf 32 a -> wf 32 b -> (gen_v4_ne a b = Ok true <-> gen_v4_eq a b = Ok false) /\ (gen_v4_ne a b = Ok false <-> gen_v4_eq a b = Ok true).
+Proof. exact v4_ne_is_not_eq. Qed.
+Print Assumptions C13_v4_ne_is_not_eq.
 
 Theorem C13_v4_gt_is_flipped_lt :
   forall a b, wf 32 a -> wf 32 b -> gen_v4_gt a b = gen_v4_lt b a.
@@ -135,6 +140,11 @@ Theorem C13_v6_eq_iff :
   forall a b, wf 128 a -> wf 128 b -> gen_v6_eq a b = Ok true <-> addr a = addr b /\ plen a = plen b.
 Proof. exact v6_eq_iff. Qed.
 Print Assumptions C13_v6_eq_iff.
+
+Theorem C13_v6_ne_is_not_eq :
+  forall a b, wf 128 a -> wf 128 b -> (gen_v6_ne a b = Ok true <-> gen_v6_eq a b = Ok false) /\ (gen_v6_ne a b = Ok false <-> gen_v6_eq a b = Ok true).
+Proof. exact v6_ne_is_not_eq. Qed.
+Print Assumptions C13_v6_ne_is_not_eq.
 
 Theorem C13_v6_gt_is_flipped_lt :
   forall a b, wf 128 a -> wf 128 b -> gen_v6_gt a b = gen_v6_lt b a.
